@@ -1,19 +1,8 @@
 (* C18 — External catch-up never regresses, corrupts or panics (reset_node_state_if_update). *)
 From Coq Require Import Lia.
 From ChitchatModel Require Import Base SMap Ids Bytes Params NodeState Stream DeltaWire Message Cluster
-  FD Chitchat SMap_lemmas NodeState_lemmas Cluster_lemmas Chitchat_lemmas Inv NodeInv.
-
-Lemma set_many_frontier : forall kvs c evs,
-  c_gc (fst (set_many c kvs evs)) = c_gc c /\ c_max c <= c_max (fst (set_many c kvs evs))
-  /\ c_hb (fst (set_many c kvs evs)) = c_hb c.
-Proof.
-  induction kvs as [|[k v] r IH]; intros c evs; cbn [set_many fst]; [repeat split; lia|].
-  destruct (set_versioned_value c k v) as [c' ev] eqn:E.
-  destruct (IH c' (evs ++ ev)) as (H1 & H2 & H3).
-  assert (Hc : c' = fst (set_versioned_value c k v)) by (rewrite E; reflexivity).
-  rewrite H1, H3. rewrite Hc at 1 3. rewrite svv_gc, svv_hb. repeat split; auto.
-  assert (c_max c <= c_max c') by (rewrite Hc, svv_max; lia). lia.
-Qed.
+  FD Chitchat World Monitors SMap_lemmas NodeState_lemmas Cluster_lemmas Chitchat_lemmas Inv NodeInv
+  Truth NodeTruth Exact Catchup_lemmas Reach ReachExact CatchupReach GuardsGen GuardTie.
 
 Lemma set_many_newer_wins : forall kvs c evs k o,
   kget k (c_kvs c) = Some o ->
@@ -106,67 +95,6 @@ Print Assumptions C18_catchup_spec.
         EVERY supplied key is in the copy afterwards, holding the supplied entry, or the copy's own
         previous entry when that one is at least as recent; nothing else is (C18_catchup_spec).
         This is what the C18 key-set monitor evaluates on the implementation's dumps. ---- *)
-Definition merged (c : copy) (k : bytes) (v : vv) : vv :=
-  match kget k (c_kvs c) with
-  | Some old => if v_ver v <=? v_ver old then old else v
-  | None => v
-  end.
-
-Lemma svv_get_same c k v : kget k (c_kvs (fst (set_versioned_value c k v))) = Some (merged c k v).
-Proof.
-  unfold set_versioned_value, merged. destruct (kget k (c_kvs c)) as [old|] eqn:E.
-  - destruct (v_ver v <=? v_ver old); cbn [fst c_kvs]; [exact E|apply kget_kinsert_same].
-  - cbn [fst c_kvs]. apply kget_kinsert_same.
-Qed.
-Lemma svv_get_other c k v k' : k <> k' -> kget k' (c_kvs (fst (set_versioned_value c k v))) = kget k' (c_kvs c).
-Proof.
-  intros Hne. unfold set_versioned_value. destruct (kget k (c_kvs c)) as [old|].
-  - destruct (v_ver v <=? v_ver old); cbn [fst c_kvs]; [reflexivity|apply kget_kinsert_other; exact Hne].
-  - cbn [fst c_kvs]. apply kget_kinsert_other. exact Hne.
-Qed.
-Lemma svv_sorted c k v : ksorted (c_kvs c) -> ksorted (c_kvs (fst (set_versioned_value c k v))).
-Proof.
-  intros Hs. unfold set_versioned_value. destruct (kget k (c_kvs c)) as [old|].
-  - destruct (v_ver v <=? v_ver old); cbn [fst c_kvs]; [exact Hs|apply Inv.kinsert_sorted; exact Hs].
-  - cbn [fst c_kvs]. apply Inv.kinsert_sorted. exact Hs.
-Qed.
-
-Lemma set_many_sorted : forall kvs c evs, ksorted (c_kvs c) -> ksorted (c_kvs (fst (set_many c kvs evs))).
-Proof.
-  induction kvs as [|[k v] r IH]; intros c evs Hs; cbn [set_many fst]; [exact Hs|].
-  destruct (set_versioned_value c k v) as [c' ev] eqn:E. apply IH.
-  replace c' with (fst (set_versioned_value c k v)) by (rewrite E; reflexivity). apply svv_sorted. exact Hs.
-Qed.
-
-Lemma set_many_get : forall kvs c evs k v,
-  NoDup (map fst kvs) -> In (k, v) kvs -> kget k (c_kvs (fst (set_many c kvs evs))) = Some (merged c k v).
-Proof.
-  induction kvs as [|[k1 v1] r IH]; intros c evs k v Hnd Hin; [destruct Hin|].
-  cbn [set_many fst]. destruct (set_versioned_value c k1 v1) as [c' ev] eqn:E.
-  cbn [map fst] in Hnd. apply NoDup_cons_iff in Hnd as [Hni Hr].
-  assert (Hc' : c' = fst (set_versioned_value c k1 v1)) by (rewrite E; reflexivity).
-  destruct Hin as [Heq|Hin].
-  - injection Heq as -> ->.
-    (* the remaining supplied keys differ from k: the entry stays *)
-    assert (Hstay : forall r0 c0 evs0, ~ In k (map fst r0) -> kget k (c_kvs (fst (set_many c0 r0 evs0))) = kget k (c_kvs c0)).
-    { induction r0 as [|[k2 v2] r0 IH0]; intros c0 evs0 Hn; cbn [set_many fst]; [reflexivity|].
-      destruct (set_versioned_value c0 k2 v2) as [c0' ev0] eqn:E0.
-      rewrite IH0 by (intros H; apply Hn; right; exact H).
-      replace c0' with (fst (set_versioned_value c0 k2 v2)) by (rewrite E0; reflexivity).
-      apply svv_get_other. intros ->. apply Hn. left. reflexivity. }
-    rewrite Hstay by exact Hni. rewrite Hc'. apply svv_get_same.
-  - rewrite (IH c' (evs ++ ev) k v Hr Hin). unfold merged.
-    assert (Hne : k1 <> k) by (intros ->; apply Hni; apply (in_map fst) in Hin; exact Hin).
-    rewrite Hc', (svv_get_other c k1 v1 k Hne). reflexivity.
-Qed.
-
-Lemma kget_filter_keep (f : bytes * vv -> bool) m k v :
-  ksorted m -> kget k m = Some v -> f (k, v) = true -> kget k (filter f m) = Some v.
-Proof.
-  intros Hs Hg Hf. apply Inv.ksorted_in_get; [apply Inv.kfilter_sorted; exact Hs|].
-  apply filter_In. split; [apply Inv.kget_in; exact Hg|exact Hf].
-Qed.
-
 Theorem C18_catchup_installs_every_supplied_key : forall n i kvs mx gc c n' evs,
   node_inv n -> NoDup (map fst kvs) ->
   nm_get i (cs_nodes (nd_cs n)) = Some c -> c_max c < mx -> c_gc c <= mx ->
@@ -234,3 +162,118 @@ Example C18_nonvacuous :
   exists n' evs, reset_node_state_if_update n i [([x61], mkVV [x31] 5 SSet)] 10 10 = Ok (n', evs) /\
     nm_get i (cs_nodes (nd_cs n')) = Some (mkCopy 1 10 10 [([x61], mkVV [x31] 5 SSet)]).
 Proof. eexists _, _. split; vm_compute; reflexivity. Qed.
+
+(* ---- "interleaved with gossip steps", globally: honest catch-ups in the step relation ----
+   [cstep] (CatchupReach.v) = every step of the global relation of C02 (joins, owner writes, GC,
+   heartbeats, clock, liveness evaluation, SYN creation, delivery of any message ever sent to any
+   node any number of times; weak acceptances — KF-1 — excluded) PLUS, at any time on any node, a
+   catch-up fed with a SNAPSHOT of any member: a state some node could hold of it — well-formed,
+   integral and exact relative to the truth ([snap_ok]).  Every copy any node holds in a reachable
+   state is a snapshot, and it stays one however long it is kept (C18_fetched_states_stay_honest),
+   so "fetch a member's state from any peer, now or a while ago, and feed it to any node" is covered
+   for every interleaving.  In every state reachable this way every copy on every node is still
+   integral (C03) and exact up to its frontier (C02), the owner's own copy is still the truth (C05),
+   and every message in flight keeps its invariants. *)
+Theorem C18_honest_catchups_keep_every_copy_integral_and_exact : forall zc,
+  (forall b c, zc b = Some c -> len c <= len b) -> forall g, creachable zc g ->
+  forall a n X c, node_at g a = Some n -> nm_get X (cs_nodes (nd_cs n)) = Some c ->
+    (* C03 *)
+    ((forall k v, In (k, v) (c_kvs c) -> t_wrote (g_T g) X (entry_of k v)) /\
+     c_max c <= t_max (g_T g) X /\ c_gc c <= t_max (g_T g) X /\ c_hb c <= t_hb (g_T g) X) /\
+    (* C02 *)
+    (forall k w, latest (g_T g) X k w -> lw_ver w <= c_max c ->
+       (exists v, kget k (c_kvs c) = Some v /\ entry_of k v = w)
+       \/ (mscheduled (lw_st w) = true /\ lw_ver w <= c_gc c /\ kget k (c_kvs c) = None)) /\
+    (* C05: the owner's own copy is the truth *)
+    (exists co, nm_get (self_id n) (cs_nodes (nd_cs n)) = Some co /\
+                c_max co = t_max (g_T g) (self_id n) /\ c_hb co = t_hb (g_T g) (self_id n)).
+Proof.
+  intros zc zc_len g Hr a n X c Hn Hc.
+  destruct (creachable_exact zc zc_len g Hr) as [[Hg _] He _].
+  destruct (gi_nodes g Hg a n Hn) as [_ Hint Hown]. destruct (Hint X c Hc) as [A B C D].
+  split; [auto|]. split; [|exact Hown].
+  intros k w Hl Hle. destruct (He a n Hn X c Hc) as [Hh Hco].
+  destruct (hold_compl_exact _ _ _ Hh Hco k w Hl Hle) as [(v & Hv & Hev)|H]; [left|right; exact H].
+  destruct Hl as (_ & Hk & _). rewrite Hk in *. exists v. auto.
+Qed.
+Print Assumptions C18_honest_catchups_keep_every_copy_integral_and_exact.
+
+(* what may be fed: any copy any node holds, at the moment it is fetched or at any later moment *)
+Theorem C18_fetched_states_stay_honest : forall zc,
+  (forall b c, zc b = Some c -> len c <= len b) -> forall g0 g b nb X c,
+  creachable zc g0 -> node_at g0 b = Some nb -> nm_get X (cs_nodes (nd_cs nb)) = Some c ->
+  csteps zc g0 g -> snap_ok (g_T g) X c.
+Proof.
+  intros zc zc_len g0 g b nb X c Hr Hb Hc Hss.
+  pose proof (held_copy_is_snapshot g0 b nb X c (creachable_exact zc zc_len g0 Hr) Hb Hc) as Hs.
+  apply (snapshot_stays_honest zc zc_len g0 g X c Hr Hss Hs).
+Qed.
+Print Assumptions C18_fetched_states_stay_honest.
+
+(* an honest catch-up about the node itself is a no-op (single writer, C05): nothing changes and no
+   event fires — the owner is at least as advanced as any snapshot of itself *)
+Theorem C18_honest_catchup_about_self_is_noop : forall zc,
+  (forall b c, zc b = Some c -> len c <= len b) -> forall g a n s n' evs,
+  creachable zc g -> node_at g a = Some n -> snap_ok (g_T g) (self_id n) s ->
+  reset_node_state_if_update n (self_id n) (c_kvs s) (c_max s) (c_gc s) = Ok (n', evs) ->
+  n' = n /\ evs = [].
+Proof.
+  intros zc zc_len g a n s n' evs Hr Hn Hs Hrun.
+  apply (catchup_about_self_is_noop (g_T g) n s n' evs); [|exact Hs|exact Hrun].
+  apply nx_of_ginve with (a := a); [apply (creachable_exact zc zc_len g Hr)|exact Hn].
+Qed.
+Print Assumptions C18_honest_catchup_about_self_is_noop.
+
+(* non-vacuity: a reachable state with a catch-up step that goes through (node 1 is fed node 0's
+   copy of itself) *)
+Definition ex_zc : bytes -> option bytes := fun _ => None.
+Lemma ex_zc_len : forall b c, ex_zc b = Some c -> len c <= len b.
+Proof. discriminate. Qed.
+Definition ex_fdc := mkFdCfg 8 1 1000 10000 5000 100000 50000.
+Definition ex_cfg (nm : byte) := mkCfg (mkId [nm] 0 (V4 1 1)) [x63] ex_fdc 10 PNone false.
+Definition ex_idA := mkId [x41] 0 (V4 1 1).
+Definition ex_nA := new_node (ex_cfg x41) [([x6b], [x31])].
+Definition ex_nB := new_node (ex_cfg x42) [].
+Definition ex_s : copy := match nm_get ex_idA (cs_nodes (nd_cs ex_nA)) with Some c => c | None => new_copy end.
+Definition ex_nB' : node :=
+  match reset_node_state_if_update ex_nB ex_idA (c_kvs ex_s) (c_max ex_s) (c_gc ex_s) with
+  | Ok (n', _) => n' | _ => ex_nB end.
+Definition ex_evs : list mevent :=
+  match reset_node_state_if_update ex_nB ex_idA (c_kvs ex_s) (c_max ex_s) (c_gc ex_s) with
+  | Ok (_, evs) => evs | _ => [] end.
+Example C18_catchup_step_exists :
+  exists g nb c, creachable ex_zc g /\ node_at g 1 = Some nb /\
+    nm_get ex_idA (cs_nodes (nd_cs nb)) = Some c /\ c_max c = 1 /\ kget [x6b] (c_kvs c) <> None.
+Proof.
+  pose (g1 := mkG (with_nodes (g_w g_init) (w_nodes (g_w g_init) ++ [ex_nA])) (g_sent g_init)
+                  (sync_truth (g_T g_init) (cf_id (ex_cfg x41)) (own_copy ex_nA))).
+  assert (H1 : creachable ex_zc g1).
+  { eapply CR_step; [apply CR_init|]. apply CS_gossip. apply (GS_join ex_zc true g_init (ex_cfg x41) [([x6b], [x31])]).
+    intros a n H. destruct a; discriminate. }
+  pose (g2 := mkG (with_nodes (g_w g1) (w_nodes (g_w g1) ++ [ex_nB])) (g_sent g1)
+                  (sync_truth (g_T g1) (cf_id (ex_cfg x42)) (own_copy ex_nB))).
+  assert (H2 : creachable ex_zc g2).
+  { eapply CR_step; [exact H1|]. apply CS_gossip. apply (GS_join ex_zc true g1 (ex_cfg x42) []).
+    intros a n H. destruct a as [|[|a]]; try discriminate. injection H as <-. vm_compute. discriminate. }
+  assert (Hs : snap_ok (g_T g2) ex_idA ex_s).
+  { apply (held_copy_is_snapshot g2 0 ex_nA ex_idA ex_s (creachable_exact ex_zc ex_zc_len g2 H2)); vm_compute; reflexivity. }
+  pose (g3 := mkG (with_nodes (g_w g2) (set_nth (w_nodes (g_w g2)) 1 ex_nB')) (g_sent g2) (g_T g2)).
+  assert (H3 : creachable ex_zc g3).
+  { eapply CR_step; [exact H2|]. apply (CS_catchup ex_zc g2 1 ex_nB ex_idA ex_s ex_nB' ex_evs); [reflexivity|exact Hs|].
+    vm_compute. reflexivity. }
+  exists g3, ex_nB'. eexists. split; [exact H3|]. split; [reflexivity|]. split; [vm_compute; reflexivity|].
+  split; [reflexivity|]. vm_compute. discriminate.
+Qed.
+
+(* ---- the tie of the decision guards to the sources (GuardTie.v; see C14.v for the scheme):
+   the model function is the decision tree over the model's guards g_x, and each g_x cuts its
+   operands' space along the same boundary as rs_x, the translation of today's Rust expression
+   (regenerated on every run by tools/guards.py).  A source change that moves a boundary breaks
+   this theorem on the next run. ---- *)
+Theorem C18_catchup_guards_are_the_source_guards :
+  ((forall cmax mx, rs_catchup_uptodate cmax mx = g_catchup_uptodate cmax mx) \/
+   (forall cmax mx, rs_catchup_uptodate cmax mx = negb (g_catchup_uptodate cmax mx))) /\
+  ((forall mx cgc, rs_catchup_obsolete mx cgc = g_catchup_obsolete mx cgc) \/
+   (forall mx cgc, rs_catchup_obsolete mx cgc = negb (g_catchup_obsolete mx cgc))).
+Proof. exact (conj tie_catchup_uptodate tie_catchup_obsolete). Qed.
+Print Assumptions C18_catchup_guards_are_the_source_guards.
